@@ -234,6 +234,21 @@ def valid_templates(tier="quick"):
         T.append(_mk("restat_by_dyndep_bound_in_the_rule/" + mode, [Variant("v0", st)], {"dd" if mode == "existing" else "dd.in": dd6}, ops, [nb],
                      min(depth, 4), [mode, "restat"]))
 
+    # D6d: restat from the dyndep file, the input that is newer than the (untouched) output is itself dyndep-discovered, and the
+    # dyndep file is re-made in the build: the re-scan after the load has to judge the statement as a restat statement (by the
+    # time in its log record), as the scan of the manifest-written twin does
+    dd6d = dyndep_text([("out", [], ["x"], True)])
+    o = Stmt("out", ex=["in"], oo=["dd"], dyndep="dd", extra_reads=["x"], restat=False, copy=True)
+    o.dyn_restat = True
+    st = [Stmt("dd", ex=["dd.in"], copy=True), Stmt("x", ex=["s"]), o, Stmt("after", ex=["out"])]
+    # ("touch in": a *declared* input newer than the untouched output is the known finding F74 -- the plan is drawn up
+    # before the dyndep file is loaded)
+    ops = [{"op": "edit", "path": "s", "label": "edit s"}, {"op": "touch", "path": "dd.in", "label": "touch dd.in"},
+           {"op": "touch", "path": "in", "label": "touch in"}]
+    nb = len(ops)
+    ops += [ninja_op(j=2), ninja_op(targets=["out"], j=1)]
+    T.append(_mk("restat_by_dyndep_discovered_input_newer", [Variant("v0", st)], {"dd.in": dd6d}, ops, [nb], depth, ["produced", "restat"]))
+
     # D6c: a dyndep file whose restat binding evaluates to nothing (`restat = $nothing`, `restat = `): as in a manifest, that is
     # no restat -- although the tool happens to write only on change, its dependents run whenever it ran
     for vn, val in (("unset_variable", "$nothing"), ("empty", "")):
